@@ -160,9 +160,12 @@ def detectencoding_str(input, final=False):  # noqa: C901
             elif not prefix.startswith(charsinput[: len(prefix)]):
                 # can't turn out to be a @charset rule later
                 return ("utf-8", False)
-    # if this is the last call, and we haven't determined an encoding yet,
-    # we default to UTF-8
     if final:
+        if candidates & CANDIDATE_UTF_16_AS_LE and li >= 2:
+            # xFF xFE at the end of the input can't become a UTF-32 BOM anymore
+            return ("utf-16", True)
+        # if this is the last call, and we haven't determined an encoding yet,
+        # we default to UTF-8
         return ("utf-8", False)
     return (None, False)  # dont' know yet
 
